@@ -148,6 +148,17 @@ func (f *Field) sortArgs() (errors []error) {
 				}
 			}
 			f.Args = args
+		} else {
+			// The meta-fields are defined on no type: __type declares the
+			// argument name, __typename and __schema declare none.
+			switch f.Name {
+			case "__typename", "__schema", "__type":
+				for _, av := range f.Args {
+					if f.Name != "__type" || av.Arg != nameStr {
+						f.badArgs = append(f.badArgs, av)
+					}
+				}
+			}
 		}
 	}
 	return f.badArgErrors()
